@@ -12,6 +12,7 @@ A    == D                                         \* pool: alloc = dequeue a fre
 Fr   == [op |-> "free", v |-> 0, i |-> 0]         \* pool: give back the oldest id this thread owns (no-op if none)
 FrL  == [op |-> "free", v |-> 0, i |-> 1]         \* ... the newest one
 
+Script_2p2c1 == << <<E(11)>>, <<E(21), E(22)>>, <<D>>, <<D, D>> >>
 Script_2p2c == << <<E(11), E(12)>>, <<E(21), E(22)>>, <<D, D>>, <<D, D>> >>
 Script_2p1c == << <<E(11), E(12)>>, <<E(21), E(22)>>, <<D, D>> >>
 Script_1p2c == << <<E(11), E(12), E(13)>>, <<D, D>>, <<D>> >>
@@ -21,6 +22,7 @@ Script_len  == << <<E(11), E(12), E(13)>>, <<D, L, D>>, <<L, D>> >>
 Script_pool3 == << <<A, A, Fr, A, Fr, Fr>>, <<A, Fr, A, Fr>>, <<A, A, FrL, Fr>> >>
 Script_pool3s == << <<A, A, Fr, A>>, <<A, Fr, A>>, <<A, FrL>> >>
 Script_pool2 == << <<A, A, A, Fr, Fr, A>>, <<A, Fr, A, A, Fr, Fr>> >>
+Script_pool4s == << <<A, Fr, A>>, <<A, Fr>>, <<A, Fr>>, <<A>> >>
 Script_pool4 == << <<A, Fr, A, Fr>>, <<A, Fr, A, Fr>>, <<A, Fr>>, <<A, Fr>> >>
 
 MCInit == Init /\ opi = [p \in Procs |-> 1] /\ got = [p \in Procs |-> <<>>]
